@@ -314,7 +314,7 @@ def call_bnb(rows, n, shape):
     def go():
         s = simplex.Simplex()
         s.add_ineqs(*mk_ineqs(simplex, rows, shape))
-        BudgetDeque.budget, BudgetDeque.used, BudgetDeque.exhausted = 400, 0, False
+        BudgetDeque.budget, BudgetDeque.used, BudgetDeque.exhausted = 200, 0, False
         old = simplex.deque
         simplex.deque = BudgetDeque
         try:
@@ -499,7 +499,7 @@ def do_random(cnt, outp, sd, tier):
     out.tid = 10 ** 7
     for i in range(cnt):
         m = rand_system(rng)
-        run_system(out, m, "r", rng, 0.25, 0.25, 0.4, 0.3)
+        run_system(out, m, "r", rng, 0.2, 0.2, 0.3, 0.25)
     out.close()
 
 
@@ -515,6 +515,8 @@ def main(argv):
         import time
         vec, marker, out_vec, out_rand, cnt, sd, tier = argv[1], argv[2], argv[3], argv[4], int(argv[5]), int(argv[6]), argv[7]
         do_random(cnt, out_rand, sd, tier)
+        if len(argv) > 8:
+            open(argv[8], "w").write("ok")
         t0 = time.time()
         while not os.path.exists(marker):
             if time.time() - t0 > 7200:
